@@ -39,6 +39,7 @@ type World struct {
 	Namespaces     map[string]*api.Namespace
 	GlobalConfig   map[string]string // data of the global ConfigMap; nil = no ConfigMap object
 	clock          int64
+	SplitSubsets   bool // op `opt~subsets=1`
 }
 
 func NewWorld() *World {
@@ -213,6 +214,21 @@ func BuildEndpoints(ns, name string, addrs []AddrSpec, ports []PortSpec, numeric
 		ep.Subsets = []api.EndpointSubset{ss}
 	}
 	return ep
+}
+
+// SplitSubsets rewrites an Endpoints object so that every address sits in a subset of its own, all with
+// the same ports (legal, what manually managed Endpoints or pods exposing different port sets produce).
+func SplitSubsets(ep *api.Endpoints) {
+	var out []api.EndpointSubset
+	for _, ss := range ep.Subsets {
+		for _, a := range ss.Addresses {
+			out = append(out, api.EndpointSubset{Addresses: []api.EndpointAddress{a}, Ports: ss.Ports})
+		}
+		for _, a := range ss.NotReadyAddresses {
+			out = append(out, api.EndpointSubset{NotReadyAddresses: []api.EndpointAddress{a}, Ports: ss.Ports})
+		}
+	}
+	ep.Subsets = out
 }
 
 func BuildIngressClass(name, controller string) *networking.IngressClass {
